@@ -22,13 +22,27 @@ const MSG_RX_STATE_BITMAP_LEN: u32 = 16;
 pub struct RxCtrState {
     max_ctr: u32,
     ctr_bitmap: u16,
+    /// `false` until the first counter is received on a state created with `unsynced`
+    synced: bool,
 }
 
 impl RxCtrState {
+    /// Create a state where `max_ctr` and everything before it count as already received.
     pub const fn new(max_ctr: u32) -> Self {
         Self {
             max_ctr,
             ctr_bitmap: 0xffff,
+            synced: true,
+        }
+    }
+
+    /// Create a state where nothing has been received yet: the first counter offered
+    /// - whatever its value - becomes the maximum, with an empty window behind it.
+    pub const fn unsynced() -> Self {
+        Self {
+            max_ctr: 0,
+            ctr_bitmap: 0,
+            synced: false,
         }
     }
 
@@ -51,6 +65,13 @@ impl RxCtrState {
     /// - `true` (group): modular comparison — a counter is forward
     ///   iff `(msg_ctr - max_ctr) mod 2^32` falls in `[1, 2^31 - 1]`, otherwise behind.
     pub fn post_recv(&mut self, msg_ctr: u32, is_encrypted: bool, with_rollover: bool) -> bool {
+        if !self.synced {
+            self.synced = true;
+            self.max_ctr = msg_ctr;
+            self.ctr_bitmap = 0;
+            return true;
+        }
+
         if msg_ctr == self.max_ctr {
             // Duplicate
             return false;
@@ -86,8 +107,12 @@ impl RxCtrState {
                 // The previous max_ctr is now the actual counter
                 self.ctr_bitmap <<= udiff;
                 self.insert(udiff - 1);
+            } else if udiff == MSG_RX_STATE_BITMAP_LEN {
+                // Only the previous max_ctr is still inside the window
+                self.ctr_bitmap = 1 << (MSG_RX_STATE_BITMAP_LEN - 1);
             } else {
-                self.ctr_bitmap = 0xffff;
+                // The skipped counters were not received: they must not be reported as duplicates
+                self.ctr_bitmap = 0;
             }
             true
         } else if !is_encrypted {
